@@ -24,7 +24,7 @@ from fractions import Fraction
 
 import numpy as np
 
-from lib import Prop, coq_eval, coq_q, coq_nat, coq_z, coq_bool, coq_list, load_known
+from lib import Prop, coq_q, coq_nat, coq_z, coq_bool, coq_list, load_known
 import util
 
 INF = float("inf")
@@ -347,7 +347,8 @@ class C10(Prop):
             "tsvd: random real/complex tensors (2..4 legs, dims 1..4, optional exact low rank), random leg bipartition and order, "
             "random parameters, the three contraction modes. "
             "tree: random trees (1..7 nodes), random bond/physical dimensions, random norm scale, both routines, random "
-            "parameters. non-trivial sv = something is discarded or rescaled; tree = at least one bond; distinct by content")
+            "parameters. non-trivial: sv = at least two values, tsvd = matricisation with both sides >= 2, tree = at least one bond; "
+            "distinct by content")
     clauses = [
         ("F", "kept part is a non-empty prefix of the descending spectrum, second component the complementary suffix, "
               "length <= max_bond_dim (C10_trunc_prefix, C10_trunc_length, C10_empty_rejected)"),
@@ -437,11 +438,11 @@ class C10(Prop):
         if stream == "main":
             if ctx.thorough():
                 alphabet = [F(0), F(1, 4), F(1, 2), F(1), F(2), F(3)]
-                grid = self._grid([1, 2, 3, 5, "inf"], ["-inf", "0", "1/4", "1/2", "1", "inf"],
+                grid = self._grid([1, 2, 4, "inf"], ["-inf", "0", "1/4", "1/2", "1", "inf"],
                                   ["-inf", "0", "1/4", "1/2", "1", "2"])
             else:
                 alphabet = [F(0), F(1, 2), F(1), F(2)]
-                grid = self._grid([1, 2, 4, "inf"], ["-inf", "0", "1/2", "1"], ["-inf", "0", "1/2", "1", "2"])
+                grid = self._grid([1, 2, 3, "inf"], ["-inf", "0", "1/2", "1"], ["-inf", "0", "1/2", "1"])
             for L in range(1, 6):
                 for s in nonincreasing(alphabet, L):
                     for g in grid:
@@ -466,7 +467,7 @@ class C10(Prop):
             for c in corner:
                 cases.append(self._sv_case(*c))
         # seeded random dyadic spectra, wider parameter lattice
-        nrand = (ctx.scale(1500, 15000) if stream == "main" else 1500) * budget_scale
+        nrand = (ctx.scale(1200, 15000) if stream == "main" else 1200) * budget_scale
         tol_pool = ["-inf", "-inf", "0", "0", "1/8", "1/4", "3/8", "1/2", "3/4", "1", "3/2", "2", "inf", "nan", "-1/4", "-1"]
         for _ in range(nrand):
             L = rng.randint(1, 8)
